@@ -1,12 +1,12 @@
 #!/bin/bash
-# seedbatch.sh <id>... : confirm every /tmp/seed-out-<id>/<n> and keep it under /verif/seeded/<id>-s<n>
+# seedbatch.sh <id>... : confirm every ${SEEDPFX:-/tmp/seed-out-}<id>/<n> and keep it under /verif/seeded/<id>-${SEEDTAG:-s}<n>
 cd /verif
 for id in "$@"; do
-  for d in /tmp/seed-out-$id/[0-9]*; do
+  for d in ${SEEDPFX:-/tmp/seed-out-}$id/[0-9]*; do
     [ -f "$d/patch.diff" ] || continue
     n=$(basename "$d")
-    python3 tools/seedcheck.py "$id" "$d" --keep "$id-s$n" > .work/seedres/$id-s$n.json 2>&1
-    python3 - "$id-s$n" <<'PY'
+    python3 tools/seedcheck.py "$id" "$d" --keep "$id-${SEEDTAG:-s}$n" > .work/seedres/$id-${SEEDTAG:-s}$n.json 2>&1
+    python3 - "$id-${SEEDTAG:-s}$n" <<'PY'
 import json,sys
 n=sys.argv[1]
 try:
